@@ -115,6 +115,17 @@ type entry struct {
 	// stateful handler hammer (c09_stateful_test.go)
 	comp      string                  // component reported in violations (default: name)
 	gateFloor func(thorough bool) int // floor for the gate_passed/<name> counter
+	totalFn   func(thorough bool) int // inputs over all states, computed in the parent only (replaces quick/thorough)
+}
+
+func (e *entry) total(thorough bool) int {
+	if e.totalFn != nil {
+		return e.totalFn(thorough)
+	}
+	if thorough {
+		return e.thorough
+	}
+	return e.quick
 }
 
 // env is what a runner gets from the framework.
